@@ -69,6 +69,8 @@ def random_script(rng, kind, size, nops, full_bytes=True):
         r = rng.random()
         if kind == "xt" and r < 0.08:
             lines.append("PutcFail %d" % rb())              # element construction throws: nothing may change
+        elif kind in ("xi", "xc") and r < 0.04:
+            lines.append("Dup %s" % rng.choice(["copy", "copy", "move", "assign", "moveassign"]))     # the ring replaced by a copy of itself
         elif r < 0.22:
             lines.append("Putc %d" % rb()); fill = min(cap, fill + 1)
         elif r < 0.40:
@@ -245,6 +247,8 @@ def events_to_script(evs):
             out.append("Distance %d %d" % (e["a"], e["b"]))
         elif n == "Push":
             out.append("Push %d" % e["v"])
+        elif n == "Dup":
+            out.append("Dup %s" % e["how"])
         elif n in ("Index", "Inc", "Prev", "LastN", "FixupPos", "Set"):
             out.append("%s %d" % (n, e["i"]))
         elif n == "Fault":
